@@ -23,6 +23,11 @@ class ReplayDivergence(Exception):
     pass
 
 
+class CanonicalNotReproducible(ReplayDivergence):
+    """The SAME call under the SAME answers at every choice point took another course the second time: the harness owns
+    every source of nondeterminism, so the difference comes from state the first execution left behind in the library."""
+
+
 def permutations_of(n: int) -> list[tuple[int, ...]]:
     ident = tuple(range(n))
     if n <= 1:
@@ -138,7 +143,7 @@ def explore(fn, bound: int | None, on_execution, max_executions: int = 200000):
     o1, s1 = run_with([], fn)
     o2, s2 = run_with([], fn)
     if s1.trace != s2.trace or o1 != o2:
-        raise ReplayDivergence("canonical schedule is not reproducible: %r vs %r" % (s1.trace, s2.trace))
+        raise CanonicalNotReproducible("canonical schedule is not reproducible: %r vs %r; %r vs %r" % (s1.trace, s2.trace, o1, o2))
     executions = 0
     capped = False
     stack = [[]]
